@@ -259,7 +259,10 @@ class SAMIReader(BaseReader):
             result = pattern.search(tag)
             if not result:
                 return
-            tag_text = result.groups()[0]
+            # the pattern stops at the first line break: keep the words of
+            # text that is wrapped over several source lines
+            tag_text = ' '.join(
+                [result.groups()[0]] + tag[result.end():].split())
             self.line.append(CaptionNode.create_text(tag_text, inherit_from))
         # convert line breaks
         elif tag.name == 'br':
